@@ -94,7 +94,7 @@ def main():
     res["demo_passes_without_change"] = rc0 == 0
     res["demo_fails_with_change"] = rc1 != 0
     res["demo_output_with_change"] = o1[-600:]
-    rct, ot = sh([PY, "-m", "pytest", "-q", "-p", "no:cacheprovider", "--no-cov", "-n", "10", "--timeout=900"],
+    rct, ot = sh([PY, "-m", "pytest", "-q", "-p", "no:cacheprovider", "--no-cov", "-n", "4", "--timeout=900"],
                  cwd=copy, env=env1, timeout=3000)
     tail = ot.strip().splitlines()[-1] if ot.strip() else ""
     failed = re.findall(r"FAILED (\S+)", ot)
@@ -116,8 +116,12 @@ def main():
         res["tests_rerun_alone"] = failed
     res["tests_pass"] = bool(ok_tests)
     checks = {}
+    # a private copy of the Lean project and a private evidence directory: seeds can be evaluated side by side
+    sh(f"rsync -a {V / 'lean'}/ {work / 'lean'}/")
+    (work / "evidence" / "replay").mkdir(parents=True)
     for prop in [pid] + also:
-        envc = dict(os.environ, TOPSEARCH_REPO=str(copy))
+        envc = dict(os.environ, TOPSEARCH_REPO=str(copy), VERIF_LEAN_DIR=str(work / "lean"),
+                    VERIF_EVIDENCE_DIR=str(work / "evidence"))
         rcq, oq = sh(["./check", prop, "--tier", "quick"], cwd=V, env=envc, timeout=3000)
         lines = [l for l in oq.splitlines() if l.startswith("VIOLATION") or l.startswith("  ") or "tier=" in l]
         tier = "quick"
@@ -128,15 +132,13 @@ def main():
         caught = rcq == 1
         by = []
         txt = "\n".join(lines)
-        if "broken obligation" in txt or "lake build failed" in txt or "not a checked theorem" in txt:
+        if "broken obligation" in txt or "lake build failed" in txt or "not a checked theorem" in txt or "translator:" in txt:
             by.append("bridge/proof obligation")
         if "divergence" in txt and "divergences 0" not in txt:
             by.append("correspondence")
         if any(l.startswith("VIOLATION") and "no-failing-input-found" not in l for l in lines):
             by.append("predicate (concrete replay)")
         checks[prop] = {"caught": caught, "tier": tier, "by": by, "output": [l[:300] for l in lines[:8]]}
-        # regenerate Gen from the real tree
-        sh(["./check", prop, "--tier", "quick"], cwd=V, timeout=3000)
     res["checks"] = checks
     ok = res["demo_passes_without_change"] and res["demo_fails_with_change"] and res["tests_pass"]
     res["qualifies"] = bool(ok)
